@@ -1046,6 +1046,11 @@ def _compact_markers(
             }
             if swapped_name_value:
                 name, value = value, name
+                if op not in ("in", "not in"):
+                    # '"3.8" <= python_version' is 'python_version >= "3.8"'
+                    op = {"<": ">", "<=": ">=", ">": "<", ">=": "<="}.get(op, op)
+                    swapped_name_value = False
+                    stringed_value = False
 
             value = value[1:-1]
 
